@@ -52,6 +52,56 @@ class FullRead(object):
         return self.f.read(n)
 
 
+class _FakeSocket(object):
+    def __init__(self, payload):
+        self.payload = payload
+
+    def makefile(self, _mode, _bufsize=None):
+        return io.BytesIO(self.payload)
+
+
+def http_response(body, charset, chunked=False):
+    """a real http.client.HTTPResponse (what urlopen() returns) over a canned payload"""
+    from http import client as http_client
+    head = b"HTTP/1.1 200 OK\r\nContent-Type: text/html; charset=" + charset.encode("ascii") + b"\r\n"
+    if chunked:
+        cutp = len(body) // 2
+        payload = head + b"Transfer-Encoding: chunked\r\n\r\n"
+        for part in (body[:cutp], body[cutp:]):
+            if part:
+                payload += ("%x\r\n" % len(part)).encode("ascii") + part + b"\r\n"
+        payload += b"0\r\n\r\n"
+    else:
+        payload = head + ("Content-Length: %d\r\n\r\n" % len(body)).encode("ascii") + body
+    resp = http_client.HTTPResponse(_FakeSocket(payload))
+    resp.begin()
+    return resp
+
+
+def byte_source(kind, data, charset="utf-8", seg=None):
+    """the byte source kinds the stream factory can meet"""
+    if kind == "bytes":
+        return data
+    if kind == "bytesio":
+        return io.BytesIO(data)
+    if kind in ("nsbfull", "nonseekable"):
+        return FullRead(data)
+    if kind in ("nsb", "shortbytes"):
+        return Scripted(cut(data, seg or [4, 3, 2, 1, 5]), b"")
+    if kind in ("http", "httpresponse"):
+        return http_response(data, charset)
+    if kind == "httpchunked":
+        return http_response(data, charset, chunked=True)
+    if kind == "addinfourl":
+        from urllib import response as urllib_response
+        resp = http_response(data, charset)
+        return urllib_response.addinfourl(resp, resp.msg, "http://example.com/")
+    raise ValueError(kind)
+
+
+BYTE_KINDS = ("bytes", "bytesio", "nsb", "nsbfull", "http", "httpchunked", "addinfourl")
+
+
 def cut(data, seg):
     """cut data into pieces of the given lengths (the last piece takes the rest)"""
     out, i = [], 0
@@ -213,7 +263,7 @@ def parse_delivery(text, deliv, record=True):
     from html5lib import treebuilders
     kind = deliv["kind"]
     kw = {}
-    if kind in ("bytes", "bytesio", "nsb", "nsbfull"):
+    if kind in BYTE_KINDS:
         enc = deliv["enc"]
         data = encode(text, enc)
         if deliv.get("how") == "bom":
@@ -223,14 +273,7 @@ def parse_delivery(text, deliv, record=True):
         else:
             kw["override_encoding"] = enc
         kw["useChardet"] = False
-        if kind == "bytes":
-            src = data
-        elif kind == "bytesio":
-            src = io.BytesIO(data)
-        elif kind == "nsbfull":
-            src = FullRead(data)
-        else:
-            src = Scripted(cut(data, deliv["seg"]), b"")
+        src = byte_source(kind, data, enc, deliv.get("seg"))
     elif kind == "str":
         src = text
     elif kind == "stringio":
@@ -261,6 +304,11 @@ def parse_delivery(text, deliv, record=True):
 def codec_name(label):
     import webencodings
     return webencodings.lookup(label).codec_info.name
+
+
+def enc_name(label):
+    import webencodings
+    return webencodings.lookup(label).name
 
 
 def encode(text, label):
@@ -314,3 +362,51 @@ def validate_all(ctx, module, traces, tag, consts="", batch_bytes=12 << 20, work
         ctx.traces += len(b)
         os.remove(path)
     return out
+
+
+# ------------------------------------------------------------------------------------------------
+# the factory table (spec/SourceKind.tla): open one (source kind, BOM, override, transport) row for real
+ROW_EXTRA = {"utf-8": "é€", "utf-16le": "é€", "utf-16be": "é€", "windows-1252": "é€", "shift_jis": "日本",
+             "iso-8859-2": "ł", "koi8-r": "ж", "gb18030": "中"}
+
+
+def open_row(row, fragment=False):
+    """returns what the real factory did: dict(out, enc, conf) and whether the tree equals the str parse"""
+    import html5lib
+    from html5lib import treebuilders
+    exp = row["exp"]
+    eff = exp["enc"] if exp["out"] == "binary" else "utf-8"
+    text = "<p>x" + ROW_EXTRA.get(eff, "") + "</p>\r\n<i>y"
+    kw = {}
+    if row["ov"] != "none":
+        kw["override_encoding"] = row["ov"]
+    if row["tr"] != "none":
+        kw["transport_encoding"] = row["tr"]
+    k = row["k"]
+    if k == "str":
+        src = text
+    elif k == "stringio":
+        src = io.StringIO(text, newline="")
+    elif k == "shorttext":
+        src = Scripted(cut(text, [3, 2, 4]), "")
+    else:
+        data = encode(text, eff)
+        if row["bom"] != "none":
+            data = BOMS[row["bom"]] + data
+        kw["useChardet"] = False
+        src = byte_source(k, data, eff)
+
+    def parse(source, **kws):
+        p = html5lib.HTMLParser(treebuilders.getTreeBuilder("etree", fullTree=True), namespaceHTMLElements=False)
+        doc = p.parseFragment(source, **kws) if fragment else p.parse(source, **kws)
+        return json.dumps(proj(doc), sort_keys=True)
+    try:
+        with recording() as box:
+            tree = parse(src, **kw)
+    except TypeError as ex:
+        return {"out": "TypeError", "enc": "none", "conf": "none", "same_tree": True, "detail": str(ex)}
+    except Exception as ex:      # noqa
+        return {"out": "raised %r" % ex, "enc": "none", "conf": "none", "same_tree": False}
+    real = box[-1].real
+    out = {"HTMLUnicodeInputStream": "unicode", "HTMLBinaryInputStream": "binary"}.get(type(real).__name__, type(real).__name__)
+    return {"out": out, "enc": real.charEncoding[0].name, "conf": real.charEncoding[1], "same_tree": tree == parse(text)}
